@@ -261,7 +261,7 @@ func H_respell() {
 // C11
 func H_swap() {
 	spec := vParamString("spec")
-	vFlagsOnly = false
+	vFlagsOnly = vParamInt("flagsOnly") == 1
 	items := vItems(vParamInt("n"), vParamInt("Lp"))
 	vAssume(len(items) >= 2)
 	j := vChoice("j", len(items)-1)
